@@ -14,6 +14,8 @@ import (
 	"io"
 	"net"
 	"net/http"
+	"runtime"
+	"time"
 
 	"github.com/saucelabs/forwarder/internal/vfrt"
 )
@@ -251,4 +253,85 @@ func vfH_C11_tunnel() {
 	open, reg := VfOpenConns(p)
 	vfrt.Assert(open == 0 && reg == 0, "tunnel/open-connection-count-returns-to-zero")
 	vfrt.Assert(p.Shutdown(context.Background()) == nil, "tunnel/shutdown-succeeds-once-drained")
+}
+
+//vf:assume C11-concurrent: Shutdown runs on its own goroutine (with its real polling loop; the poll timer fires when every goroutine is blocked) while connection A's request is held at the origin by the harness; connection C arrives during the shutdown on a third goroutine; the harness then lets the origin answer. Goroutines are scheduled cooperatively (8.8); natively the same order is enforced by the harness's channels plus short sleeps before the "has not returned yet" checks
+
+type vfGateRT struct {
+	atOrigin chan struct{}
+	release  chan struct{}
+	calls    int
+}
+
+func (rt *vfGateRT) RoundTrip(req *http.Request) (*http.Response, error) {
+	rt.calls++
+	if rt.calls == 1 {
+		rt.atOrigin <- struct{}{}
+		<-rt.release
+	}
+	return &http.Response{StatusCode: 200, ProtoMajor: 1, ProtoMinor: 1, Header: http.Header{}, Body: io.NopCloser(bytes.NewReader([]byte("ok"))), ContentLength: 2, Request: req}, nil
+}
+
+//vf:harness property=C11 nopanic reach=concurrent-shutdown-waited,concurrent-late-connection steps=8000000
+func vfH_C11_concurrent() {
+	rt := &vfGateRT{atOrigin: make(chan struct{}, 1), release: make(chan struct{}, 1)}
+	p := &Proxy{RoundTripper: rt, WithoutWarning: true}
+	p.init()
+	wireA := "GET http://example.com/a HTTP/1.1\r\nHost: example.com\r\n\r\n"
+	if vfrt.Choice("a-has-a-queued-second-request", 2) == 1 {
+		wireA += "GET http://example.com/a2 HTTP/1.1\r\nHost: example.com\r\n\r\n"
+	}
+	connA := NewVfConn([]byte(wireA))
+	servedA := make(chan struct{})
+	go func() {
+		p.handleLoop(connA)
+		close(servedA)
+	}()
+	<-rt.atOrigin // A's request has reached its origin
+
+	shutdownDone := make(chan error, 1)
+	go func() { shutdownDone <- p.Shutdown(context.Background()) }()
+	for !p.closing() {
+		runtime.Gosched()
+	}
+	time.Sleep(20 * time.Millisecond) // native replay only: give a wrong early return time to happen
+	returnedEarly := false
+	select {
+	case <-shutdownDone:
+		returnedEarly = true
+	default:
+	}
+	vfrt.Assert(!returnedEarly, "concurrent/shutdown-does-not-return-while-a-served-connection-remains")
+	if returnedEarly {
+		return
+	}
+	vfrt.Reach("concurrent-shutdown-waited")
+
+	// a connection that arrives while the shutdown is in progress
+	late := vfrt.Choice("late-connection", 2) == 1
+	connC := NewVfConn([]byte("GET http://example.com/c HTTP/1.1\r\nHost: example.com\r\n\r\n"))
+	servedC := make(chan struct{})
+	if late {
+		vfrt.Reach("concurrent-late-connection")
+		go func() {
+			p.handleLoop(connC)
+			close(servedC)
+		}()
+	}
+
+	rt.release <- struct{}{} // the origin answers
+	<-servedA
+	err := <-shutdownDone
+	vfrt.Assert(err == nil, "concurrent/shutdown-succeeds-once-the-connection-finished")
+	// by the time Shutdown reports success the served connection has finished and been closed
+	vfrt.Assert(connA.Closed >= 1, "concurrent/served-connection-closed-before-shutdown-reports-success")
+	res, perr := http.ReadResponse(bufio.NewReader(bytes.NewReader(connA.Out.Bytes())), &http.Request{Method: "GET"})
+	vfrt.Assert(perr == nil && res.StatusCode == 200 && res.Close, "concurrent/in-flight-response-delivered-and-announces-close")
+	vfrt.Assert(rt.calls == 1, "concurrent/nothing-new-forwarded-after-shutdown-began")
+	if late {
+		<-servedC
+		vfrt.Assert(connC.Out.Len() == 0 && connC.Closed >= 1, "concurrent/connection-accepted-during-shutdown-closed-without-service")
+	}
+	open, reg := VfOpenConns(p)
+	vfrt.Assert(open == 0 && reg == 0, "concurrent/open-connection-count-returns-to-zero")
 }
